@@ -139,6 +139,31 @@ func (r *Result) Allow(name string, frac float64) {
 	}
 }
 
+var sideAllow = map[string]float64{}
+var sideCount = map[string]int64{}
+
+// Allow records the worst observed fraction of a tolerance (reported in the
+// evidence; more than 50% prints a WARNING).
+func Allow(name string, frac float64) {
+	if frac > sideAllow[name] {
+		sideAllow[name] = frac
+	}
+}
+
+// Count adds to a named counter of the evidence.
+func Count(name string, n int64) { sideCount[name] += n }
+
+// FlushSide moves the side counters into a result.
+func FlushSide(res *Result) {
+	for k, v := range sideAllow {
+		res.Allow(k, v)
+	}
+	for k, v := range sideCount {
+		res.Count(k, v)
+	}
+	sideAllow, sideCount = map[string]float64{}, map[string]int64{}
+}
+
 // Current is updated before every transition so that a watchdog can name the
 // history being executed if it hangs.
 var Current struct {
@@ -359,6 +384,7 @@ func Explore[W any](sc *Scenario[W], deadline time.Time) *Result {
 		res.Samples = append(res.Samples, fmt.Sprintf("[%s] seed=%s: %s", sc.Name, seeds[seed].Name, strings.Join(names(seed, ops, -1), "; ")))
 	}
 	sort.Strings(res.Samples)
+	FlushSide(res)
 	res.WallS = time.Since(start).Seconds()
 	runtime.GC()
 	return res
